@@ -27,6 +27,7 @@ func specC08() *propertySpec {
 			{"C08-R6", "skip-does-not-hide-failure: when an action ends by skipping (invalidData), the failure flag is still consulted before runAction returns, so a non-fatal failure signalled before the skip stops Repeat at once", ruleC08R6},
 			{"C08-R5", "reflection-table: StateMachineActions skips exactly the method of interface StateMachine, installs sm.Check under \"\", asserts at least one action", ruleC08R5},
 			{"C08-R7", "failure-signals-set-the-flag: Error/Fail/Fatal store the failure in T.failed on every path and the fatal ones panic with stopTest; Repeat and runAction re-read that flag after every action and invariant, so a fatal failure whose panic is intercepted inside the action still stops the sequence (shared with C02-R1)", ruleC02R1},
+			{"C08-R8", "failure-inside-a-drawn-generator-stops-the-sequence: every bracket that runs user code on a T of its own (checkOnce, Custom's maybeValue) consults that T's flag after its cleanups on every exit, so a non-fatal failure signalled by a Custom generator function that an action draws from — also from one of its Cleanup callbacks — reaches the outer T before runAction's flag test, and Repeat stops (shared with C02-R2)", ruleC02R2},
 		},
 	}
 }
